@@ -12,6 +12,7 @@ merge_queues issue are understood; anything else raises UnknownGitCommand
 ordinary git failure) and is remembered in ``self.unknown`` so that the check
 can turn the run INCONCLUSIVE.
 """
+import copy
 import fnmatch
 import shlex
 
@@ -21,6 +22,44 @@ from bert_e.lib.simplecmd import CommandError
 
 class UnknownGitCommand(Exception):
     pass
+
+
+_ARGV = {}      # command line -> argv (shlex.split is the harness's hot spot)
+
+
+_ATOMIC = frozenset((str, int, bool, float, type(None)))
+
+
+def _branch_deepcopy(self, memo):
+    """Same result as copy.deepcopy's default treatment of an instance (new
+    object through cls.__new__, registered in the memo, every attribute
+    deep-copied) minus the generic dispatch for str/int/None attributes.
+    QueueCollection._process deep-copies every branch object once per merge
+    path: 85% of a cell's time is spent there."""
+    cls = self.__class__
+    new = cls.__new__(cls)
+    memo[id(self)] = new
+    d = new.__dict__
+    for k, v in self.__dict__.items():
+        t = type(v)
+        if t in _ATOMIC or t is FakeGit:     # FakeGit.__deepcopy__ is self
+            d[k] = v
+        elif t.__dict__.get('__deepcopy__') is None and \
+                isinstance(v, real_git.Branch):
+            y = memo.get(id(v))
+            d[k] = _branch_deepcopy(v, memo) if y is None else y
+        else:
+            d[k] = copy.deepcopy(v, memo)
+    return new
+
+
+def fast_deepcopy(on):
+    """Harness-side speed-up, switched off on the cells that go through the
+    whole path so that both ways of copying are compared with the oracle."""
+    if on:
+        real_git.Branch.__deepcopy__ = _branch_deepcopy
+    elif '__deepcopy__' in real_git.Branch.__dict__:
+        del real_git.Branch.__deepcopy__
 
 
 class FakeGit(real_git.Repository):
@@ -101,10 +140,14 @@ class FakeGit(real_git.Repository):
                 shlex.quote(arg.strip()) if isinstance(arg, str) and arg
                 else arg for arg in args)
         self.ncmd += 1
-        try:
-            argv = shlex.split(command)
-        except ValueError:
-            return self._unknown(command)
+        argv = _ARGV.get(command)
+        if argv is None:
+            try:
+                argv = shlex.split(command)
+            except ValueError:
+                return self._unknown(command)
+            if len(_ARGV) < 100000:
+                _ARGV[command] = argv
         return self._interpret(command, argv)
 
     def _unknown(self, command):
